@@ -3,7 +3,7 @@
      wf_elements16 t e     the template together with the element lists it is expanded over
    No proofs in this file. *)
 From Coq Require Import String Ascii List Bool Arith.
-From KV Require Import Lib.Str Lib.StrOps Lib.ODict Gen.Tags Gen.Pipeline Model.Engine Model.EngineSM Model.EngineDomain
+From KV Require Import Lib.Str Lib.StrOps Lib.ODict Lib.TableDef Gen.Tags Gen.Pipeline Model.Engine Model.EngineSM Model.EngineDomain
                        Spec.RefExpand Spec.RefExpand16.
 Import ListNotations.
 Open Scope string_scope.
@@ -63,3 +63,14 @@ Definition elements_of_model (m : smodel) : elements :=
 
 Definition engine16 (m : smodel) (dict : list (string * string)) (t : template16) : option string :=
   generate_file m dict [] (render16 t).
+
+(* rows as the engine takes them (lists of five strings) -> rows of the declarative table model *)
+Definition row_of (r : EngineSM.row) : TableDef.row :=
+  mkRow (r_state r) (r_event r) (EngineSM.r_next r) (r_action r) (EngineSM.r_guard r).
+Definition table_of (tt : list EngineSM.row) : table := map row_of tt.
+
+(* the reference output / the admission test, from the raw table and interface lists (what the harness calls) *)
+Definition ref16_rows (tt : list EngineSM.row) (structs protos msgs : list string) (t : template16) : string :=
+  ref16 (elements_of (table_of tt) structs protos msgs) t.
+Definition wf16_rows (tt : list EngineSM.row) (structs protos msgs : list string) (t : template16) : bool :=
+  wf_elements16 t (elements_of (table_of tt) structs protos msgs).
